@@ -38,6 +38,8 @@ pub fn vdiv_ceil(len: usize, s: usize) -> (r: usize)
     q + 1
 }
 
+pub open spec fn smin(a: int, b: int) -> int { if a <= b { a } else { b } }
+pub open spec fn smax(a: int, b: int) -> int { if a >= b { a } else { b } }
 pub open spec fn p2(k: nat) -> int decreases k { if k == 0 { 1 } else { 2 * p2((k - 1) as nat) } }
 pub proof fn lemma_p2_pos(a: nat) ensures p2(a) > 0 decreases a { if a > 0 { lemma_p2_pos((a - 1) as nat); } }
 pub proof fn lemma_p2_add(a: nat, b: nat) ensures p2(a + b) == p2(a) * p2(b) decreases a
